@@ -134,7 +134,7 @@ def symbolic_path(loop, call):
                         _assign_env(x, e2)
                     for name in _assigned_in(st.body) | _assigned_in(st.orelse):
                         a, b = e1.get(name, ast.Name(id=name, ctx=ast.Load())), e2.get(name, ast.Name(id=name, ctx=ast.Load()))
-                        env[name] = ast.IfExp(test=test, body=a, orelse=b)
+                        env[name] = a if ast.dump(a) == ast.dump(b) else ast.IfExp(test=test, body=a, orelse=b)
                     # early exit: the statements after 'if c: return/continue/raise' run under 'not c'
                     def _exits(b):
                         return bool(b) and isinstance(b[-1], (ast.Return, ast.Continue, ast.Raise, ast.Break))
